@@ -74,11 +74,14 @@ type c11Item struct {
 	formula  string
 	modelTok string // transcript token, "" = not modelled
 	isTime   bool   // time / duration: default style differs by design
+	isClock  bool   // time.Time
 	richBad  bool
 	rich     []xl.RichTextRun
 	isRich   bool
 	bstr     bool // text payload contains "_x": the in-memory shared-string path decodes it (C01/C03 territory)
 }
+
+var c11scratch *xl.File
 
 func c11parseVal(tok string) (v interface{}, model string, it c11Item, err error) {
 	if tok == "" {
@@ -153,7 +156,21 @@ func c11parseVal(tok string) (v interface{}, model string, it c11Item, err error
 			return nil, "", it, fmt.Errorf("bad t item")
 		}
 		it.isTime = true
-		return time.Unix(sec, ns).UTC(), "", it, nil
+		it.isClock = true
+		tv := time.Unix(sec, ns).UTC()
+		// what a time.Time is stored as (timeToExcelTime + FormatFloat, or the RFC 3339 text): external to the stream
+		// model (C19's territory); obtained through the in-memory API on a scratch workbook
+		if c11scratch == nil {
+			c11scratch = xl.NewFile()
+		}
+		_ = c11scratch.SetCellValue("Sheet1", "A1", tv)
+		text, _ := c11scratch.GetCellValue("Sheet1", "A1", xl.Options{RawCellValue: true})
+		isNum := "0"
+		if _, e := strconv.ParseFloat(text, 64); e == nil {
+			isNum = "1"
+		}
+		// the id of the NumFmt 22 style is filled in after the call (@NF)
+		return tv, "T" + isNum + ";" + hx(text) + ";@NF", it, nil
 	case 'x':
 		p := strings.SplitN(rest, ",", 2)
 		if len(p) != 2 {
@@ -547,6 +564,15 @@ func (c *c11Case) exec(line string) {
 		}
 		res := c11res(err)
 		ln := 0
+		if strings.Contains(strings.Join(mt, " "), "@NF") {
+			// the style SetRow gives a time without a style of its own: NewStyle(NumFmt 22), created on first use;
+			// asking again returns the same id (mirrored on the twin so that the style tables stay aligned)
+			nf, _ := c.sf.NewStyle(&xl.Style{NumFmt: 22})
+			_, _ = c.mf.NewStyle(&xl.Style{NumFmt: 22})
+			for i := range mt {
+				mt[i] = strings.ReplaceAll(mt[i], "@NF", strconv.Itoa(nf))
+			}
+		}
 		if c.emit {
 			if !modelled {
 				r.Stat("model:unmodelled-item-in-model-case")
@@ -1165,6 +1191,20 @@ func (c *c11Case) compare() {
 				}
 			}
 		}
+		// a time.Time stored as a number in a cell without any style of its own gets the NumFmt 22 style from SetRow
+		if cc != nil && cc.it.isClock && cc.it.style <= 0 && cc.rowStyle == 0 {
+			colSt := 0
+			for _, o := range c.colOps {
+				if !o.isW && o.lo <= p.c && p.c <= o.hi {
+					colSt = o.st
+				}
+			}
+			if _, e := strconv.ParseFloat(sv, 64); e == nil && colSt == 0 {
+				if st, e := sg.GetStyle(ss); e != nil || st == nil || st.NumFmt != 22 {
+					c.fail("cell:time-default-style", fmt.Sprintf("%s: a time.Time without a style was written with style %d, which is not the NumFmt 22 style", name, ss), 0)
+				}
+			}
+		}
 		// time / duration values get a default number format chosen by each API's own rule
 		// (stream: 22 or none; in-memory: 14/17/20/21/22/46) unless the cell style is explicit
 		implicitTime := cc != nil && cc.it.isTime && cc.it.style <= 0
@@ -1420,7 +1460,7 @@ var c11bstrs = []string{"a\xffb", "\xc3", "\xed\xa0\x80z", "ok\xe2\x82", "\x80\r
 var c11formulas = []string{"1+2", "SUM(A1:B2)", "A1&\"<x>\"", "IF(A1>1,\"a\",\"b\")", "B1*2"}
 
 func c11genVal(rng *Rng, rich bool) string {
-	n := 12
+	n := 13 // 0..12: the modelled kinds, time.Time included
 	if rich {
 		n = 20
 	}
